@@ -326,6 +326,15 @@ Proof.
     rewrite Hct, !bytes_eqb_refl; reflexivity.
 Qed.
 
+Theorem readerlist_holds b r : spec_okb (IReaderList b r) (model_readerlist b r) = true.
+Proof.
+  destruct r as [tup buf ops]. unfold model_readerlist, content_from_reader. cbn [sl_tuple sl_buf sl_ops].
+  destruct b, tup;
+    cbn [iter_bytes c_src c_type iter_src mutate w_heap w_data w_pos w_reads heap_get heap_set nth
+         spec_okb joined_okb];
+    unfold readerlist_bytes; cbn [sl_tuple sl_buf sl_ops orb]; rewrite !bytes_eqb_refl; reflexivity.
+Qed.
+
 (* ================= 6. __eq__ ================= *)
 Theorem content_eq_stored ta ca tb cb w :
   content_eq {| c_type := ta; c_src := Stored ca |} {| c_type := tb; c_src := Stored cb |} w
@@ -811,7 +820,7 @@ Qed.
 (* ================= 8. the model meets the statement ================= *)
 Theorem model_meets_spec i : wf i = true -> finding_F16 i = false -> spec_okb i (model i) = true.
 Proof.
-  destruct i as [s|d|ct chunks|cs data|r|r|r|ta ca tb cb|ct]; intros Hwf Hf.
+  destruct i as [s|d|ct chunks|cs data|r|r|r|b r|ta ca tb cb|ct]; intros Hwf Hf.
   - (* text_content *)
     cbn [spec_okb model]. simpl in Hwf.
     rewrite (text_roundtrip s w0 Hwf). cbn [fst]. rewrite tres_eqb_refl. cbn [andb].
@@ -829,6 +838,7 @@ Proof.
   - apply reader_holds. simpl in Hwf. apply Nat.leb_le. exact Hwf.
   - apply snap_holds. simpl in Hwf. apply Nat.leb_le. exact Hwf.
   - apply snaplist_holds.
+  - apply readerlist_holds.
   - cbn [spec_okb model]. rewrite content_eq_stored. cbn [fst]. rewrite !eqb_reflx. reflexivity.
   - apply mime_holds. simpl in Hf. apply negb_false_iff. exact Hf.
 Qed.
@@ -885,7 +895,7 @@ Qed.
 
 Theorem spec_okb_sound i o : spec_okb i o = true -> Spec i o.
 Proof.
-  destruct i as [s|d|ct chunks|cs data|r|r|r|ta ca tb cb|ct], o as [ct' b t|ct' b|b t|runs|cr rc i1 r1 i2 r2|cp sm c1 c2 ra og|sm c1 c2 og|e ne|echo res];
+  destruct i as [s|d|ct chunks|cs data|r|r|r|bf r|ta ca tb cb|ct], o as [ct' b t|ct' b|b t|runs|cr rc i1 r1 i2 r2|cp sm c1 c2 ra og|sm c1 c2 og|i1 i2|e ne|echo res];
     cbn [spec_okb Spec]; try discriminate; intro H.
   - apply andb_true_iff in H as [H1 H2]. split; [apply tres_eqb_spec; exact H1|apply text_okb_sound; exact H2].
   - apply tres_eqb_spec. exact H.
@@ -917,6 +927,8 @@ Proof.
     unfold snaplist_okb in H. apply andb_true_iff in H as [H H4]. apply andb_true_iff in H as [H H3].
     apply andb_true_iff in H as [H1 H2].
     repeat split; try assumption; apply joined_okb_sound; assumption.
+  - (* content_from_reader over a list *)
+    apply andb_true_iff in H as [H1 H2]. split; apply joined_okb_sound; assumption.
   - (* eq *)
     apply andb_true_iff in H as [H1 H2]. apply (proj1 (bool_eqb_spec _ _)) in H1. apply (proj1 (bool_eqb_spec _ _)) in H2.
     split; [|exact H2]. rewrite H1, andb_true_iff, ct_eqb_iff. unfold bytes_eqb. rewrite bytes_eqb_spec. tauto.
